@@ -82,7 +82,7 @@ CLAIMS = {
     note=TB + "SAN writer/reader are outside the claim: each query needs three full-mask generations plus core::fmt on a symbolic board and did not come within reach.", design="DESIGN.md §3 C20"),
 }
 
-ENABLED = ["C04", "C05", "C08", "C11", "C12", "C15", "C17", "C18", "C19", "C20"]
+ENABLED = ["C01", "C02", "C03", "C04", "C05", "C06", "C08", "C09", "C10", "C11", "C12", "C13", "C14", "C15", "C16", "C17", "C18", "C19", "C20"]
 
 NOT_YET = {}
 
